@@ -125,6 +125,11 @@ func (e *Engine) opQOpen(c *cursor) *Violation {
 			return v
 		}
 	}
+	for _, sh := range e.Shadows {
+		if r, ok := e.lastShadow[sh]; ok && r.Query != nil {
+			r.Query.Close()
+		}
+	}
 	set, dup := toSet(seq)
 	if dup {
 		return e.viol("query-set", op, "filter %s visits an entity twice", spec)
